@@ -432,8 +432,15 @@ func c07RunMode(run *vfRun, c c07Case, mode string) {
 		// every node that has stored tRound-1 before moving the clocks on, so that the compression of time does not
 		// create an interleaving a real network cannot have. (A node that is catching up stores tRound-1 and signs
 		// tRound in the same instant in real time too: that case is left alone and judged.)
-		waitSwitch := func() {
-			for i := 0; i < 400; i++ {
+		starved := false
+		waitSwitch := func() bool {
+			t0 := time.Now()
+			defer func() {
+				if time.Since(t0) > 8*time.Second {
+					starved = true // 1000 sleeps of 5 ms took more than 8 s: the box is not keeping pace
+				}
+			}()
+			for i := 0; i < 1000; i++ {
 				waiting := false
 				for _, pos := range next.members {
 					n := nt.nodes[pos]
@@ -443,15 +450,21 @@ func c07RunMode(run *vfRun, c c07Case, mode string) {
 					}
 				}
 				if !waiting {
-					return
+					return true
 				}
 				time.Sleep(5 * time.Millisecond)
 			}
-			run.Count("steps_that_waited_2s_for_a_switch_callback", 1)
+			return false
 		}
 		for nt.clockRound(nt.nodes[next.members[0]]) < tRound+2 {
 			step()
-			waitSwitch()
+			if !waitSwitch() && starved && mode == "c07" {
+				// a store callback that has not run although its round was stored 5 s of sleeps ago, on a box where those
+				// sleeps took far longer than they should: nothing can be concluded (on a box that keeps pace the wait
+				// simply ends and the rules below judge a switch that does not come)
+				run.Inconclusive(fmt.Sprintf("case %d: a node that stored round %d had not switched its vault yet and the box is not keeping pace", c.Index, tRound-1))
+				return
+			}
 		}
 		if downNode != nil {
 			// it restarts with what core persisted for it: the new group and share
